@@ -250,6 +250,7 @@ def check(pid, tier):
     nops = 0
     n_skipped = 0
     n_model_timeout = 0
+    n_oversized = 0
     hist = {}
     distinct = set()
     samples = []
@@ -273,6 +274,17 @@ def check(pid, tier):
                 # is still judged below)
                 n_model_timeout += 1
                 continue
+            if props.klass(ia) not in ("panic", "crash", "timeout", "ub", "none") and ma is not None:
+                # answers beyond the caps of the machinery (harness: 4 MiB, marked `…CUT(n bytes)`; runner: 8 MiB,
+                # `other oversized-answer`): a model answer the runner dropped cannot be compared at all; an
+                # implementation answer the harness cut is compared on the part that exists
+                if ma.startswith("other oversized-answer"):
+                    n_oversized += 1
+                    continue
+                cut = ia.find(" …CUT(") if ia else -1
+                if cut >= 0 and ma.startswith(ia[:cut]):
+                    n_oversized += 1
+                    continue
             fam = op.split(" ", 1)[0]
             k = fam + ":" + props.klass(ia)
             hist[k] = hist.get(k, 0) + 1
@@ -297,6 +309,7 @@ def check(pid, tier):
     cov["evaluations"] = nops
     cov["operations_skipped_after_crash_budget"] = n_skipped
     cov["operations_unjudged_model_timeout"] = n_model_timeout
+    cov["operations_beyond_answer_caps"] = n_oversized
     cov["distinct_nontrivial"] = len(distinct)
     cov["samples"] = samples
     cov["known_findings_printed"] = known_printed
